@@ -10,7 +10,10 @@ Lemma Gen_tls_ok :
   tls_hostflags_calls = expected_hostflags_calls /\
   tls_host_calls = expected_host_calls /\
   tls_app_data_is_conn = true /\
-  tls_verify_shape = expected_verify_shape.
+  tls_verify_shape = expected_verify_shape /\
+  tls_verify_cert_accessor = CURRENT_CERT /\
+  tls_proceed_failure_calls = expected_proceed_failure_calls /\
+  tls_legacy_failure_calls = expected_legacy_failure_calls.
 Proof. vm_compute. repeat split; reflexivity. Qed.
 
 Lemma verify_setting_eq : forall t, verify_setting t = if t then (SSL_VERIFY_NONE, 0) else (SSL_VERIFY_PEER, 1).
@@ -33,22 +36,36 @@ Proof.
 Qed.
 
 (* ---------------------------------------------------------------- _tls_verify *)
-Lemma tls_verify_eq : forall pre cb n,
-  tls_verify pre cb n =
+Lemma lookup_find : forall k l d,
+  lookup k l d = match find (fun kv => k =? fst kv) l with Some kv => snd kv | None => d end.
+Proof.
+  intros k l d. induction l as [|[k' v] l IH]; [reflexivity|]. cbn. destruct (k =? k'); [reflexivity|exact IH].
+Qed.
+
+(* the model's handler and the specification's user agree *)
+Lemma cb_answer_says : forall cb n cert, cb_answer cb n cert = user_says cb n cert.
+Proof. intros [|a d|l d] n cert; cbn; [reflexivity|reflexivity|]. now rewrite lookup_find. Qed.
+
+Lemma shown_current : forall cur, shown_cert cur = cur.
+Proof. reflexivity. Qed.
+
+Lemma tls_verify_eq : forall pre cur cb n,
+  tls_verify pre cur cb n =
     if pre =? 1 then (1, [], n)
-    else match cb with
-         | CbNone => (0, [], n)
-         | CbScript a d => (nth n a d, [OCertfail n (nth n a d)], S n)
+    else match user_says cb n cur with
+         | None => (0, [], n)
+         | Some a => (a, [OCertfail n cur a], S n)
          end.
 Proof.
-  intros pre cb n. unfold tls_verify.
+  intros pre cur cb n. unfold tls_verify.
   change (shape_ret 1) with (Some 1). change (shape_ret 2) with (Some 0). change (shape_ret 0) with (Some 100).
-  destruct (pre =? 1); [reflexivity|]. destruct cb; reflexivity.
+  rewrite shown_current, cb_answer_says.
+  destruct (pre =? 1); [reflexivity|]. destruct (user_says cb n cur); reflexivity.
 Qed.
 
 (* events that the certificate walk can produce *)
 Definition quiet_ev (o : out) : bool :=
-  match o with OVerify _ _ | OCertfail _ _ => true | _ => false end.
+  match o with OVerify _ _ | OCertfail _ _ _ => true | _ => false end.
 Definition quiet (l : list out) : Prop := forallb quiet_ev l = true.
 
 Lemma quiet_app : forall a b, quiet a -> quiet b -> quiet (a ++ b).
@@ -78,41 +95,50 @@ Proof.
 Qed.
 
 (* the walk, seen from the specification side *)
-Fixpoint accepted_all (cb : cbk) (stream : list Z) (n : nat) : bool :=
+Fixpoint accepted_all (cb : cbk) (stream : list (Z * Z)) (n : nat) : bool :=
   match stream with
   | [] => true
-  | p :: r => if p =? 1 then accepted_all cb r n
-              else cb_accepts_b cb n && accepted_all cb r (S n)
+  | (p, cur) :: r => if p =? 1 then accepted_all cb r n
+                     else cb_accepts_b cb n cur && accepted_all cb r (S n)
   end.
+
+Lemma accepted_all_spec : forall cb stream n,
+  accepted_all cb stream n = all_accepted_b cb n (failing_certs stream).
+Proof.
+  intros cb stream. induction stream as [|[p cur] r IH]; intros n; [reflexivity|].
+  cbn [accepted_all]. unfold failing_certs. cbn [filter fst]. destruct (p =? 1); cbn [negb].
+  - apply IH.
+  - cbn [map snd all_accepted_b]. f_equal. apply IH.
+Qed.
 
 Lemma ssl_verify_cb : forall cfg cb stream n,
   v_cb cfg = 1 ->
   fst (fst (ssl_verify cfg cb stream n)) = accepted_all cb stream n /\
   quiet (snd (fst (ssl_verify cfg cb stream n))).
 Proof.
-  intros cfg cb stream. induction stream as [|p r IH]; intros n Hcb; [split; reflexivity|].
+  intros cfg cb stream. induction stream as [|[p cur] r IH]; intros n Hcb; [split; reflexivity|].
   cbn [ssl_verify accepted_all]. rewrite Hcb. change (1 =? 1) with true. cbv iota.
-  rewrite tls_verify_eq.
+  rewrite tls_verify_eq. unfold cb_accepts_b.
   destruct (p =? 1) eqn:Hp.
   - change (1 =? 0) with false. cbv iota.
     destruct (ssl_verify cfg cb r n) as [[ok evs'] n''] eqn:E.
     specialize (IH n Hcb). rewrite E in IH. cbn in *. destruct IH as [I1 I2]. split; [exact I1|].
     unfold quiet in *. cbn. exact I2.
-  - destruct cb as [|a d].
-    + cbn. split; [reflexivity|]. reflexivity.
-    + cbn [cb_accepts_b]. destruct (nth n a d =? 0) eqn:Ha.
+  - destruct (user_says cb n cur) as [a|].
+    + destruct (a =? 0) eqn:Ha.
       * cbn. split; reflexivity.
       * cbn [negb andb].
-        destruct (ssl_verify cfg (CbScript a d) r (S n)) as [[ok evs'] n''] eqn:E.
+        destruct (ssl_verify cfg cb r (S n)) as [[ok evs'] n''] eqn:E.
         specialize (IH (S n) Hcb). rewrite E in IH. cbn in *. destruct IH as [I1 I2]. split; [exact I1|].
         unfold quiet in *. cbn. exact I2.
+    + cbn. split; reflexivity.
 Qed.
 
 (* without a callback OpenSSL keeps its own verdict: nothing of libstrophe runs *)
 Lemma ssl_verify_nocb : forall cfg cb stream n,
   v_cb cfg = 0 -> quiet (snd (fst (ssl_verify cfg cb stream n))).
 Proof.
-  intros cfg cb stream. induction stream as [|p r IH]; intros n Hcb; [reflexivity|].
+  intros cfg cb stream. induction stream as [|[p cur] r IH]; intros n Hcb; [reflexivity|].
   cbn [ssl_verify]. rewrite Hcb. change (0 =? 1) with false. cbv iota.
   destruct (p =? 0).
   - reflexivity.
@@ -120,62 +146,62 @@ Proof.
     specialize (IH n Hcb). rewrite E in IH. cbn in *. exact IH.
 Qed.
 
-Lemma accepted_all_consent : forall cb stream n,
-  accepted_all cb stream n = true ->
-  forall i, (i < failing stream)%nat -> cb_accepts cb (n + i).
+Lemma cb_accepts_iff : forall cb i c, cb_accepts_b cb i c = true <-> cb_accepts cb i c.
 Proof.
-  intros cb stream. induction stream as [|p r IH]; intros n H i Hi.
-  - cbn in Hi. lia.
-  - cbn [accepted_all] in H. unfold failing in Hi. cbn [filter] in Hi.
-    destruct (p =? 1) eqn:Hp; cbn [negb] in Hi.
-    + apply IH; assumption.
-    + apply andb_true_iff in H as [H1 H2]. cbn [length] in Hi.
-      destruct i as [|i].
-      * rewrite Nat.add_0_r. destruct cb; cbn in *; [discriminate|].
-        intro E. rewrite E in H1. discriminate.
-      * replace (n + S i)%nat with (S n + i)%nat by lia. apply IH; [assumption|]. unfold failing. lia.
+  intros cb i c. unfold cb_accepts_b, cb_accepts. destruct (user_says cb i c) as [a|].
+  - destruct (a =? 0) eqn:E; cbn; split.
+    + discriminate.
+    + intros [a' [H1 H2]]. injection H1 as <-. apply Z.eqb_eq in E. contradiction.
+    + intros _. exists a. split; [reflexivity|]. intro H; subst; discriminate.
+    + reflexivity.
+  - split; [discriminate|]. intros [a [H _]]. discriminate.
 Qed.
 
-Lemma consent_accepted_all : forall cb stream n,
-  (forall i, (i < failing stream)%nat -> cb_accepts cb (n + i)) -> accepted_all cb stream n = true.
+Lemma all_accepted_consent : forall cb certs n,
+  all_accepted_b cb n certs = true <->
+  (forall i c, nth_error certs i = Some c -> cb_accepts cb (n + i) c).
 Proof.
-  intros cb stream. induction stream as [|p r IH]; intros n H; [reflexivity|].
-  cbn [accepted_all]. unfold failing in H. cbn [filter] in H.
-  destruct (p =? 1) eqn:Hp; cbn [negb] in H.
-  - apply IH. exact H.
-  - cbn [length] in H. apply andb_true_iff. split.
-    + specialize (H 0%nat ltac:(lia)). rewrite Nat.add_0_r in H.
-      destruct cb; cbn in *; [contradiction|]. destruct (nth n answers dflt =? 0) eqn:E; [|reflexivity].
-      apply Z.eqb_eq in E. contradiction.
-    + apply IH. intros i Hi. replace (S n + i)%nat with (n + S i)%nat by lia. apply H. unfold failing in Hi. lia.
+  intros cb certs. induction certs as [|c r IH]; intros n.
+  - split; [intros _ [|i] c H; discriminate|reflexivity].
+  - cbn [all_accepted_b]. rewrite andb_true_iff, cb_accepts_iff, IH. split.
+    + intros [H1 H2] [|i] c' Hn; cbn in Hn.
+      * injection Hn as <-. now rewrite Nat.add_0_r.
+      * replace (n + S i)%nat with (S n + i)%nat by lia. now apply H2.
+    + intros H. split.
+      * specialize (H 0%nat c eq_refl). now rewrite Nat.add_0_r in H.
+      * intros i c' Hn. replace (S n + i)%nat with (n + S i)%nat by lia. now apply H.
 Qed.
 
-Lemma accepted_all_no_fail : forall cb stream n, Forall (fun p => p = 1) stream -> accepted_all cb stream n = true.
+Lemma accepted_all_no_fail : forall cb stream n, Forall (fun e => fst e = 1) stream -> accepted_all cb stream n = true.
 Proof.
-  intros cb stream n H. induction H as [|p r Hp _ IH]; [reflexivity|].
-  cbn. subst p. exact IH.
+  intros cb stream n H. induction H as [|[p cur] r Hp _ IH]; [reflexivity|].
+  cbn in *. subst p. exact IH.
 Qed.
 
-Lemma accepted_all_none : forall stream n, (exists p, In p stream /\ p <> 1) -> accepted_all CbNone stream n = false.
+Lemma accepted_all_none : forall stream n, (exists e, In e stream /\ fst e <> 1) -> accepted_all CbNone stream n = false.
 Proof.
-  intros stream n [p [Hin Hp]]. induction stream as [|q r IH]; [contradiction|].
+  intros stream n [e [Hin Hp]]. induction stream as [|[q cur] r IH]; [contradiction|].
   cbn. destruct (q =? 1) eqn:Hq; [|reflexivity].
-  destruct Hin as [->|Hin]; [apply Z.eqb_eq in Hq; contradiction|]. now apply IH.
+  destruct Hin as [<-|Hin]; [apply Z.eqb_eq in Hq; contradiction|]. now apply IH.
+Qed.
+
+Lemma accepted_all_const_tail : forall v r n, (v =? 0) = false -> accepted_all (CbScript [] v) r n = true.
+Proof.
+  intros v r. induction r as [|[q cur] r IH]; intros n Hv; [reflexivity|].
+  cbn [accepted_all]. destruct (q =? 1); [now apply IH|].
+  unfold cb_accepts_b. cbn [user_says]. replace (nth n [] v) with v by (destruct n; reflexivity).
+  rewrite Hv. cbn. now apply IH.
 Qed.
 
 Lemma accepted_all_const : forall v stream n,
-  (exists p, In p stream /\ p <> 1) -> accepted_all (CbScript [] v) stream n = negb (v =? 0).
+  (exists e, In e stream /\ fst e <> 1) -> accepted_all (CbScript [] v) stream n = negb (v =? 0).
 Proof.
-  intros v stream. induction stream as [|q r IH]; intros n [p [Hin Hp]]; [contradiction|].
-  cbn [accepted_all cb_accepts_b].
+  intros v stream. induction stream as [|[q cur] r IH]; intros n [e [Hin Hp]]; [contradiction|].
+  cbn [accepted_all].
   destruct (q =? 1) eqn:Hq.
-  - destruct Hin as [->|Hin]; [apply Z.eqb_eq in Hq; contradiction|]. apply IH. eauto.
-  - replace (nth n [] v) with v by (destruct n; reflexivity).
-    destruct (v =? 0) eqn:Hv; [reflexivity|]. cbn.
-    (* the remaining elements are all accepted as well *)
-    clear IH Hin Hp p Hq q. revert n. induction r as [|q r IH]; intros n; [reflexivity|].
-    cbn [accepted_all cb_accepts_b]. destruct (q =? 1); [apply IH|].
-    replace (nth (S n) [] v) with v by reflexivity. rewrite Hv. cbn. apply IH.
+  - destruct Hin as [<-|Hin]; [apply Z.eqb_eq in Hq; contradiction|]. apply IH. eauto.
+  - unfold cb_accepts_b. cbn [user_says]. replace (nth n [] v) with v by (destruct n; reflexivity).
+    destruct (v =? 0) eqn:Hv; [reflexivity|]. cbn. now apply accepted_all_const_tail.
 Qed.
 
 (* ---------------------------------------------------------------- tls_start *)
@@ -219,29 +245,46 @@ Definition failure_tail_starttls (sc : scenario) : list out :=
      ODisconnect false (match s_after sc with PeerCloses => ErrPeer | PeerSilent => ErrNone end); OIs false]
   else [OWire false WClose; OSockClose; ODisconnect false ErrAborted; OIs false].
 
+(* xmpp_disconnect and what follows: the reaction the translator found in _handle_proceedtls_default *)
+Definition give_up (sc : scenario) (c : conn) : conn * list out := finish sc c [WClose].
+
+Lemma react_proceed : forall sc n,
+  react sc tls_proceed_failure_calls (c_down sc n) [] [] = (c_down sc n, [], [WClose], false).
+Proof. reflexivity. Qed.
+
 Lemma give_up_down : forall sc n,
   exists c', give_up sc (c_down sc n) = (c', failure_tail_starttls sc) /\
-             c_state c' = Disconnected /\ is_secured c' = false.
+             c_state c' = Disconnected /\ is_secured c' = false /\ c_tls c' = None /\ c_intf_tls c' = false.
 Proof.
-  intros sc n. unfold give_up, c_down, failure_tail_starttls, tls_error, send_phase.
+  intros sc n. unfold give_up, finish, c_down, failure_tail_starttls, tls_error, send_phase.
   cbn [c_state c_error].
   destruct (s_tls_err sc =? 0) eqn:E.
   - unfold peer_ends. cbn [c_state]. destruct (s_after sc); cbn; eexists; repeat split; reflexivity.
   - cbn. eexists; repeat split; reflexivity.
 Qed.
 
+Lemma react_legacy : forall sc n,
+  react sc tls_legacy_failure_calls (c_down sc n) [] [] =
+    (set_state Disconnected (c_down sc n), [OSockClose; ODisconnect false (tls_error sc)], [], true).
+Proof. reflexivity. Qed.
+
 Definition failure_tail_legacy (sc : scenario) : list out :=
   [OSockClose; ODisconnect false (tls_error sc); OIs false].
 
+(* TLS could not even be initialised: _auth goes on without it (refused when TLS is mandatory) *)
 Definition noinit_tail (sc : scenario) : list out :=
-  [OWire false WClose; OSockClose;
-   ODisconnect false (match s_after sc with PeerCloses => ErrPeer | PeerSilent => ErrNone end); OIs false].
+  if s_mandatory sc then [OSockClose; ODisconnect false ErrNone; OIs false]
+  else [OWire false WAuth; OSockClose;
+        ODisconnect false (match s_after sc with PeerCloses => ErrPeer | PeerSilent => ErrNone end); OIs false].
 
-Lemma give_up_conn0 : forall sc,
-  exists c', give_up sc conn0 = (c', noinit_tail sc) /\ c_state c' = Disconnected /\ is_secured c' = false.
+Lemma noinit_conn0 : forall sc,
+  exists c', (let '(c1, o1, q) := auth_clear sc conn0 in let '(c2, o2) := finish sc c1 q in (c2, o1 ++ o2)) = (c', noinit_tail sc) /\
+             c_state c' = Disconnected /\ is_secured c' = false.
 Proof.
-  intros sc. unfold give_up, noinit_tail, conn0, send_phase, peer_ends. cbn [c_state c_error].
-  destruct (s_after sc); cbn; eexists; repeat split; reflexivity.
+  intros sc. unfold auth_clear, finish, noinit_tail, conn0, send_phase, peer_ends.
+  destruct (s_mandatory sc); cbn.
+  - eexists; repeat split; reflexivity.
+  - destruct (s_after sc); cbn; eexists; repeat split; reflexivity.
 Qed.
 
 (* the three shapes of a run *)
@@ -264,7 +307,7 @@ Inductive shape (sc : scenario) (c : conn) (tr : list out) : Prop :=
     shape sc c tr
 | ShapeDown : forall evs,
     new_ok sc = true -> start_ok sc = false -> quiet evs ->
-    c_state c = Disconnected -> is_secured c = false ->
+    c_state c = Disconnected -> is_secured c = false -> c_tls c = None -> c_intf_tls c = false ->
     tr = match s_entry sc with
          | EStartTls => [OWire false WHeader; OTlsNew true (Some (the_cfg sc)); OTlsFree; OWire false WStartTls]
          | ELegacy => []
@@ -296,16 +339,20 @@ Proof.
                   (set_cbn n' (set_intf true (set_tls (Some (the_cfg sc)) conn0)))))))
         with (c_down sc n').
       destruct (s_entry sc) eqn:He.
-      * destruct (give_up_down sc n') as [c' [Hg [Hst Hsec]]]. rewrite Hg. cbn [fst snd].
+      * rewrite react_proceed.
+        destruct (give_up_down sc n') as [c' [Hg [Hst [Hsec [Ht Hi]]]]]. unfold give_up in Hg. rewrite Hg. cbn [fst snd].
         apply ShapeDown with (evs := evs); try assumption.
         rewrite He. cbn [wire map c_intf_tls conn0 app]. repeat rewrite <- app_assoc. reflexivity.
-      * unfold conn_disconnect, c_down. cbn [c_state set_state c_tls]. cbn [fst snd].
+      * rewrite react_legacy. unfold finish, send_phase, peer_ends, c_down. cbn [c_state set_state]. cbn [fst snd].
         apply ShapeDown with (evs := evs); try assumption; try reflexivity.
         rewrite He. cbn [app]. repeat rewrite <- app_assoc. reflexivity.
   - destruct (s_entry sc) eqn:He.
-    + destruct (give_up_conn0 sc) as [c' [Hg [Hst Hsec]]]. rewrite Hg. cbn [fst snd].
-      apply ShapeNoInit; try assumption. rewrite He. reflexivity.
-    + cbn [fst snd]. apply ShapeNoInit; try reflexivity; try assumption. rewrite He. reflexivity.
+    + destruct (noinit_conn0 sc) as [c' [Hg [Hst Hsec]]].
+      destruct (auth_clear sc conn0) as [[c1 o1] q]. destruct (finish sc c1 q) as [c2 o2].
+      injection Hg as -> Ho. cbn [fst snd].
+      apply ShapeNoInit; try assumption. rewrite He. cbn [wire map c_intf_tls conn0 app]. now rewrite Ho.
+    + change tls_legacy_failure_calls with [2; 6]. cbn [fst snd].
+      apply ShapeNoInit; try reflexivity; try assumption. rewrite He. reflexivity.
 Qed.
 
 (* ---------------------------------------------------------------- trace bookkeeping over the shapes *)
@@ -337,10 +384,10 @@ Lemma run_ends : forall sc,
   n_disconnects (snd (run sc)) = 1%nat /\ c_state (fst (run sc)) = Disconnected /\
   is_secured (fst (run sc)) = false /\ existsb is_crash (snd (run sc)) = false.
 Proof.
-  intros sc. destruct (run_shape sc) as [Hn Hs Hsec Htr | evs Hn Hok Hq Hs Hsec Htr | evs Hn Hok Hq Hs Hsec Htr];
+  intros sc. destruct (run_shape sc) as [Hn Hs Hsec Htr | evs Hn Hok Hq Hs Hsec Htr | evs Hn Hok Hq Hs Hsec Htl Hif Htr];
     rewrite Htr; (split; [|split; [assumption|split; [assumption|]]]).
-  - unfold noinit_tail; destruct (s_entry sc), (s_after sc); reflexivity.
-  - unfold noinit_tail; destruct (s_entry sc), (s_after sc); reflexivity.
+  - unfold noinit_tail; destruct (s_entry sc), (s_mandatory sc), (s_after sc); reflexivity.
+  - unfold noinit_tail; destruct (s_entry sc), (s_mandatory sc), (s_after sc); reflexivity.
   - shape_simpl Hq. destruct (s_entry sc); reflexivity.
   - shape_simpl Hq. destruct (s_entry sc); reflexivity.
   - shape_simpl Hq. unfold failure_tail_starttls, failure_tail_legacy.
@@ -353,18 +400,14 @@ Lemma start_ok_consent : forall sc, start_ok sc = true -> user_consent sc.
 Proof.
   intros sc H. unfold start_ok in H. apply andb_true_iff in H as [_ H].
   apply orb_true_iff in H as [H|H]; [now left|right].
-  intros i Hi. change i with (0 + i)%nat. eapply accepted_all_consent; eassumption.
+  rewrite accepted_all_spec in H. intros i c Hn. change i with (0 + i)%nat.
+  eapply all_accepted_consent; eassumption.
 Qed.
 
 Lemma consent_b_iff : forall sc, user_consent_b sc = true <-> user_consent sc.
 Proof.
-  intros sc. unfold user_consent_b, user_consent. rewrite orb_true_iff, forallb_forall.
-  split; intros [H|H]; [now left| |now left|]; right.
-  - intros i Hi. specialize (H i ltac:(apply in_seq; lia)).
-    destruct (s_cb sc); cbn in *; [discriminate|]. intro E. rewrite E in H. discriminate.
-  - intros i Hi. apply in_seq in Hi. specialize (H i ltac:(lia)).
-    destruct (s_cb sc); cbn in *; [contradiction|].
-    destruct (nth i answers dflt =? 0) eqn:E; [apply Z.eqb_eq in E; contradiction|reflexivity].
+  intros sc. unfold user_consent_b, user_consent. rewrite orb_true_iff, all_accepted_consent.
+  split; intros [H|H]; [now left| |now left|]; right; intros i c Hn; apply (H i c Hn).
 Qed.
 
 (* a run that reports "secured" anywhere, or writes anything over TLS, is a run of shape Up *)
@@ -372,9 +415,9 @@ Lemma trusted_only_up : forall sc,
   ever_secured (snd (run sc)) = true \/ tls_wire_used (snd (run sc)) = true ->
   new_ok sc = true /\ start_ok sc = true.
 Proof.
-  intros sc H. destruct (run_shape sc) as [Hn Hs Hsec Htr | evs Hn Hok Hq Hs Hsec Htr | evs Hn Hok Hq Hs Hsec Htr].
+  intros sc H. destruct (run_shape sc) as [Hn Hs Hsec Htr | evs Hn Hok Hq Hs Hsec Htr | evs Hn Hok Hq Hs Hsec Htl Hif Htr].
   - exfalso. rewrite Htr in H. unfold noinit_tail in H.
-    destruct (s_entry sc), (s_after sc); cbn in H; destruct H; discriminate.
+    destruct (s_entry sc), (s_mandatory sc), (s_after sc); cbn in H; destruct H; discriminate.
   - now split.
   - exfalso. rewrite Htr in H. revert H. shape_simpl Hq.
     unfold failure_tail_starttls, failure_tail_legacy.
@@ -398,15 +441,15 @@ Proof.
     destruct (tls_wire_used (snd (run sc))) eqn:E2; [exfalso; apply Hc, secured_consent; now right|]. now split. }
   destruct Hs as [H1 H2]. split; [assumption|split; [assumption|]].
   destruct (run_ends sc) as [Hd [Hst _]]. split; [|now split].
-  destruct (run_shape sc) as [Hn Hs Hsec Htr | evs Hn Hok Hq Hs Hsec Htr | evs Hn Hok Hq Hs Hsec Htr].
-  - rewrite Htr. unfold noinit_tail. destruct (s_entry sc), (s_after sc); reflexivity.
+  destruct (run_shape sc) as [Hn Hs Hsec Htr | evs Hn Hok Hq Hs Hsec Htr | evs Hn Hok Hq Hs Hsec Htl Hif Htr].
+  - rewrite Htr. unfold noinit_tail. destruct (s_entry sc), (s_mandatory sc), (s_after sc); reflexivity.
   - exfalso. apply Hc. now apply start_ok_consent.
   - rewrite Htr. shape_simpl Hq. unfold failure_tail_starttls, failure_tail_legacy.
     destruct (s_entry sc), (s_tls_err sc =? 0), (s_after sc); reflexivity.
 Qed.
 
 Lemma no_callback_aborts : forall sc,
-  s_trust sc = false -> s_cb sc = CbNone -> (exists p, In p (s_stream sc) /\ p <> 1) ->
+  s_trust sc = false -> s_cb sc = CbNone -> (exists e, In e (s_stream sc) /\ fst e <> 1) ->
   ever_secured (snd (run sc)) = false /\ tls_wire_used (snd (run sc)) = false /\
   connected (snd (run sc)) = false /\
   n_disconnects (snd (run sc)) = 1%nat /\ c_state (fst (run sc)) = Disconnected /\
@@ -417,22 +460,24 @@ Proof.
   { unfold start_ok. rewrite Ht, Hcb, accepted_all_none by assumption. now rewrite andb_false_r. }
   assert (Hc : ~ user_consent sc).
   { intros [H|H]; [congruence|].
-    pose proof (consent_accepted_all (s_cb sc) (s_stream sc) 0 H) as A.
+    assert (A : accepted_all (s_cb sc) (s_stream sc) 0 = true).
+    { rewrite accepted_all_spec. apply all_accepted_consent. exact H. }
     rewrite Hcb, accepted_all_none in A by assumption. discriminate. }
   destruct (no_consent_aborts sc Hc) as [A [B [C [D E]]]]. repeat (split; [assumption|]).
-  intros Hn. destruct (run_shape sc) as [Hn' Hs Hsec Htr | evs Hn' Hok' Hq Hs Hsec Htr | evs Hn' Hok' Hq Hs Hsec Htr];
+  intros Hn. destruct (run_shape sc) as [Hn' Hs Hsec Htr | evs Hn' Hok' Hq Hs Hsec Htr | evs Hn' Hok' Hq Hs Hsec Htl Hif Htr];
     [congruence|congruence|].
   rewrite Htr. apply in_or_app; right. apply in_or_app; right. apply in_or_app; right. apply in_or_app; left. now left.
 Qed.
 
-Lemma rejecting_callback_aborts : forall sc a d i,
-  s_trust sc = false -> s_cb sc = CbScript a d -> (i < failing (s_stream sc))%nat -> nth i a d = 0 ->
+Lemma rejecting_callback_aborts : forall sc i cert,
+  s_trust sc = false ->
+  nth_error (failing_certs (s_stream sc)) i = Some cert -> user_says (s_cb sc) i cert = Some 0 ->
   ever_secured (snd (run sc)) = false /\ tls_wire_used (snd (run sc)) = false /\
   connected (snd (run sc)) = false /\
   n_disconnects (snd (run sc)) = 1%nat /\ c_state (fst (run sc)) = Disconnected.
 Proof.
-  intros sc a d i Ht Hcb Hi Hz. apply no_consent_aborts.
-  intros [H|H]; [congruence|]. specialize (H i Hi). rewrite Hcb in H. cbn in H. contradiction.
+  intros sc i cert Ht Hn Hz. apply no_consent_aborts.
+  intros [H|H]; [congruence|]. destruct (H i cert Hn) as [a [Ha Hnz]]. rewrite Hz in Ha. injection Ha as <-. now apply Hnz.
 Qed.
 
 Lemma after_start_failed : forall pre evs tail,
@@ -456,35 +501,9 @@ Lemma failed_handshake : forall sc,
 Proof.
   intros sc Hin.
   destruct (run_ends sc) as [Hd [Hst [Hsec _]]].
-  assert (Hfin : c_tls (fst (run sc)) = None /\ c_intf_tls (fst (run sc)) = false
-                 \/ ~ In (OTlsStart false) (snd (run sc))).
-  { unfold run, conn_tls_start. rewrite tls_new_eq. destruct (new_ok sc).
-    - destruct (tls_start_eq sc) as [evs [n' [Hs Hq]]]. change (c_cbn (set_intf true (set_tls (Some (the_cfg sc)) conn0))) with 0%nat.
-      rewrite Hs. destruct (start_ok sc) eqn:Hok.
-      + right. change (set_secured true (set_cbn n' (set_intf true (set_tls (Some (the_cfg sc)) conn0)))) with (c_up sc n').
-        rewrite negotiate_up. intros H.
-        assert (Q : existsb is_start_failed evs = false) by (apply quiet_existsb; [intros [] ?; try discriminate; reflexivity|assumption]).
-        destruct (s_entry sc); cbn [fst snd] in H;
-          repeat (apply in_app_or in H as [H|H]);
-          try (cbn in H; repeat (destruct H as [H|H]; try discriminate); try contradiction);
-          try (assert (existsb is_start_failed evs = true) by (apply existsb_exists; eexists; split; [exact H|reflexivity]); congruence).
-      + left.
-        change (set_intf (c_intf_tls conn0)
-                 (set_tls_failed true (set_tls None (set_error (tls_error sc)
-                    (set_cbn n' (set_intf true (set_tls (Some (the_cfg sc)) conn0)))))))
-          with (c_down sc n').
-        destruct (s_entry sc).
-        * unfold give_up, c_down, send_phase, peer_ends, tls_error. cbn [c_state c_error].
-          destruct (s_tls_err sc =? 0), (s_after sc); cbn; split; reflexivity.
-        * cbn. split; reflexivity.
-    - right. destruct (s_entry sc).
-      + unfold give_up, conn0, send_phase, peer_ends. cbn [c_state c_error].
-        destruct (s_after sc); cbn; intros H; repeat (destruct H as [H|H]; try discriminate); contradiction.
-      + cbn. intros H; repeat (destruct H as [H|H]; try discriminate); contradiction. }
-  destruct Hfin as [[Ht Hi]|Hno]; [|contradiction].
-  destruct (run_shape sc) as [Hn Hs' Hsec' Htr | evs Hn Hok Hq Hs' Hsec' Htr | evs Hn Hok Hq Hs' Hsec' Htr].
+  destruct (run_shape sc) as [Hn Hs' Hsec' Htr | evs Hn Hok Hq Hs' Hsec' Htr | evs Hn Hok Hq Hs' Hsec' Htl Hif Htr].
   - exfalso. rewrite Htr in Hin. unfold noinit_tail in Hin.
-    destruct (s_entry sc), (s_after sc); cbn in Hin; repeat (destruct Hin as [Hin|Hin]; try discriminate); contradiction.
+    destruct (s_entry sc), (s_mandatory sc), (s_after sc); cbn in Hin; repeat (destruct Hin as [Hin|Hin]; try discriminate); contradiction.
   - exfalso. rewrite Htr in Hin.
     assert (Q : existsb is_start_failed evs = false) by (apply quiet_existsb; [intros [] ?; try discriminate; reflexivity|assumption]).
     destruct (s_entry sc);
@@ -552,11 +571,11 @@ Proof.
   apply in_map with (f := fun ca => mkCell k m e ca). destruct ca; cbn; tauto.
 Qed.
 
-Lemma cell_start_ok : forall c stream hs te after,
+Lemma cell_start_ok : forall c mand stream hs te after,
   stream_consistent c stream ->
-  start_ok (cell_scenario c stream hs te after) = hs && table_secured c.
+  start_ok (cell_scenario c mand stream hs te after) = hs && table_secured c.
 Proof.
-  intros c stream hs te after Hc. unfold start_ok, cell_scenario, table_secured. cbn [s_hs_ok s_trust s_cb s_stream].
+  intros c mand stream hs te after Hc. unfold start_ok, cell_scenario, table_secured. cbn [s_hs_ok s_trust s_cb s_stream].
   f_equal. unfold stream_consistent in Hc.
   destruct (cert_verifies c) eqn:Hv.
   - rewrite accepted_all_no_fail by assumption. cbn. now rewrite orb_true_r.
@@ -567,20 +586,20 @@ Proof.
     + rewrite accepted_all_const by assumption. reflexivity.
 Qed.
 
-Lemma decision_table : forall c stream hs te after,
+Lemma decision_table : forall c mand stream hs te after,
   In c all_cells -> stream_consistent c stream ->
-  let tr := snd (run (cell_scenario c stream hs te after)) in
+  let tr := snd (run (cell_scenario c mand stream hs te after)) in
   connect_secured tr = hs && table_secured c /\
   ever_secured tr = hs && table_secured c /\
   tls_wire_used tr = hs && table_secured c /\
   n_disconnects tr = 1%nat.
 Proof.
-  intros c stream hs te after _ Hc tr. subst tr.
-  set (sc := cell_scenario c stream hs te after).
-  pose proof (cell_start_ok c stream hs te after Hc) as Hok. fold sc in Hok.
+  intros c mand stream hs te after _ Hc tr. subst tr.
+  set (sc := cell_scenario c mand stream hs te after).
+  pose proof (cell_start_ok c mand stream hs te after Hc) as Hok. fold sc in Hok.
   assert (Hn : new_ok sc = true) by (unfold new_ok, sc, cell_scenario; cbn; destruct (k_ca c); reflexivity).
   destruct (run_ends sc) as [Hd _].
-  destruct (run_shape sc) as [Hn' Hs Hsec Htr | evs Hn' Hok' Hq Hs Hsec Htr | evs Hn' Hok' Hq Hs Hsec Htr]; [congruence| |].
+  destruct (run_shape sc) as [Hn' Hs Hsec Htr | evs Hn' Hok' Hq Hs Hsec Htr | evs Hn' Hok' Hq Hs Hsec Htl Hif Htr]; [congruence| |].
   - rewrite <- Hok, Hok'. rewrite Htr. shape_simpl Hq.
     destruct (s_entry sc); repeat split; try reflexivity; rewrite <- Htr; exact Hd.
   - rewrite <- Hok, Hok'. rewrite Htr. shape_simpl Hq. unfold failure_tail_starttls, failure_tail_legacy.
@@ -608,7 +627,7 @@ Proof.
 Qed.
 
 Lemma no_callback_aborts' : forall sc,
-  s_trust sc = false -> s_cb sc = CbNone -> (exists p, In p (s_stream sc) /\ p <> 1) ->
+  s_trust sc = false -> s_cb sc = CbNone -> (exists e, In e (s_stream sc) /\ fst e <> 1) ->
   ever_secured (snd (run sc)) = false /\ tls_wire_used (snd (run sc)) = false /\
   connected (snd (run sc)) = false /\
   n_disconnects (snd (run sc)) = 1%nat /\ c_state (fst (run sc)) = Disconnected /\
@@ -620,9 +639,9 @@ Qed.
 
 Lemma decision_table_full :
   length all_cells = 112%nat /\ (forall c, In c all_cells) /\
-  forall c stream hs te after,
+  forall c mand stream hs te after,
     In c all_cells -> stream_consistent c stream ->
-    let tr := snd (run (cell_scenario c stream hs te after)) in
+    let tr := snd (run (cell_scenario c mand stream hs te after)) in
     connect_secured tr = hs && table_secured c /\
     ever_secured tr = hs && table_secured c /\
     tls_wire_used tr = hs && table_secured c /\
@@ -630,34 +649,40 @@ Lemma decision_table_full :
 Proof. split; [exact all_cells_112|split; [exact all_cells_complete|exact decision_table]]. Qed.
 
 (* ---------------------------------------------------------------- the hypotheses of the theorems are satisfiable *)
-Definition ex_sc (trust : bool) (cb : cbk) (e : entry) (stream : list Z) : scenario :=
-  mkScenario trust true false cb e true true stream true 1 PeerCloses.
+Definition ex_sc (trust : bool) (cb : cbk) (e : entry) (stream : list (Z * Z)) : scenario :=
+  mkScenario trust true false cb e false true true stream true 1 PeerCloses.
 
 Example ex_secured_by_verification :
-  ever_secured (snd (run (ex_sc false CbNone EStartTls [1; 1]))) = true /\ user_consent (ex_sc false CbNone EStartTls [1; 1]).
-Proof. split; [reflexivity|]. right. cbn. intros i Hi. lia. Qed.
+  let sc := ex_sc false CbNone EStartTls [(1, 1); (1, 0)] in
+  ever_secured (snd (run sc)) = true /\ user_consent sc.
+Proof. split; [reflexivity|]. right. intros [|i] c H; discriminate. Qed.
 Example ex_secured_by_callback :
-  ever_secured (snd (run (ex_sc false (CbScript [1; 1] 0) ELegacy [0; 0; 1]))) = true.
+  ever_secured (snd (run (ex_sc false (CbScript [1; 1] 0) ELegacy [(0, 0); (0, 0); (1, 0)]))) = true.
 Proof. reflexivity. Qed.
+(* expired intermediate, the user pinned the intermediate: accepted; pinned the leaf only: refused *)
+Example ex_secured_by_pinned_intermediate :
+  ever_secured (snd (run (ex_sc false (CbByCert [(1, 1)] 0) ELegacy [(1, 2); (0, 1); (1, 1); (1, 0)]))) = true /\
+  ever_secured (snd (run (ex_sc false (CbByCert [(0, 1)] 0) ELegacy [(1, 2); (0, 1); (1, 1); (1, 0)]))) = false.
+Proof. split; reflexivity. Qed.
 Example ex_secured_by_trust_flag :
-  ever_secured (snd (run (ex_sc true CbNone EStartTls [0]))) = true.
+  ever_secured (snd (run (ex_sc true CbNone EStartTls [(0, 0)]))) = true.
 Proof. reflexivity. Qed.
 Example ex_no_callback_failing :
-  let sc := ex_sc false CbNone EStartTls [1; 0] in
-  s_trust sc = false /\ s_cb sc = CbNone /\ (exists p, In p (s_stream sc) /\ p <> 1) /\ In (OTlsStart false) (snd (run sc)).
-Proof. cbn. repeat split; [exists 0; split; [tauto|discriminate]|]. tauto. Qed.
+  let sc := ex_sc false CbNone EStartTls [(1, 1); (0, 0)] in
+  s_trust sc = false /\ s_cb sc = CbNone /\ (exists e, In e (s_stream sc) /\ fst e <> 1) /\ In (OTlsStart false) (snd (run sc)).
+Proof. cbn. repeat split; [exists (0, 0); split; [tauto|discriminate]|]. tauto. Qed.
 Example ex_rejecting_callback :
-  let sc := ex_sc false (CbScript [1; 0] 1) ELegacy [0; 0; 0] in
-  (1 < failing (s_stream sc))%nat /\ nth 1 [1; 0] 1 = 0 /\ In (OTlsStart false) (snd (run sc)).
-Proof. cbn. repeat split; [lia|]. tauto. Qed.
+  let sc := ex_sc false (CbByCert [(1, 0)] 1) ELegacy [(1, 2); (0, 1); (1, 0)] in
+  nth_error (failing_certs (s_stream sc)) 0 = Some 1 /\ user_says (s_cb sc) 0 1 = Some 0 /\ In (OTlsStart false) (snd (run sc)).
+Proof. cbn. repeat split. tauto. Qed.
 Example ex_failed_handshake_silent_peer :
-  In (OTlsStart false) (snd (run (mkScenario false true false CbNone EStartTls true true [] false 5 PeerSilent))).
+  In (OTlsStart false) (snd (run (mkScenario false true false CbNone EStartTls false true true [] false 5 PeerSilent))).
 Proof. cbn. tauto. Qed.
 Example ex_unusable_ca :
-  let sc := mkScenario false true false CbNone ELegacy true false [] true 0 PeerCloses in
+  let sc := mkScenario false true false CbNone ELegacy true true false [] true 0 PeerCloses in
   (s_cafile sc || s_capath sc) = true /\ s_ca_ok sc = false /\ tls_new sc = None.
 Proof. repeat split. Qed.
 Example ex_cell_consistent :
-  stream_consistent (mkCell KExpired MCallbackAccepts ELegacy true) [1; 0; 1] /\
-  stream_consistent (mkCell KValid MNoCallback EStartTls true) [1; 1].
-Proof. split; cbn; [exists 0; split; [tauto|discriminate]|repeat constructor]. Qed.
+  stream_consistent (mkCell KExpired MCallbackAccepts ELegacy true) [(1, 1); (0, 0); (1, 0)] /\
+  stream_consistent (mkCell KValid MNoCallback EStartTls true) [(1, 1); (1, 0)].
+Proof. split; cbn; [exists (0, 0); split; [tauto|discriminate]|repeat constructor]. Qed.
